@@ -19,12 +19,74 @@ HARNESS_TIMEOUT = 600
 DRIVER_TIMEOUT = 900
 EXHAUSTIVE = False
 
-spec_override, judge, classify = P.make_hooks("C16", "G")
+_spec_override, _judge, _classify = P.make_hooks("C16", "G")
 canon = P.canon
+BINARY_PROFILES = ["dev"]
+
+
+def spec_override(c):
+    return c.spec if c.line.startswith("pcaphdr ") else _spec_override(c)
+
+
+def judge(c):
+    return None if c.line.startswith("pcaphdr ") else _judge(c)
+
+
+def classify(c):
+    return "pcap-object-properties" if c.line.startswith("pcaphdr ") else _classify(c)
 
 
 def nontrivial(c):
-    return "ok " in c.impl
+    return "ok " in c.impl or c.impl.startswith("hdr ")
+
+
+# ---- the pcap object's properties, end to end: a file with the given global header is opened by a script that prints them
+HDR_SCRIPT = ('let f = pcap_open("%s");\nif is_error(f) { puts("open=E"); } else {\n'
+              '  puts("hdr ", f.magic, " ", f.major, " ", f.minor, " ", f.thiszone, " ", f.sigfigs, " ", f.snaplen, " ", f.linktype);\n}\n')
+
+
+def run_hdr(exe, scratch, idx, c):
+    import os, subprocess
+    d = os.path.join(scratch, f"h{idx}")
+    os.makedirs(d, exist_ok=True)
+    path = os.path.join(d, "in.pcap")
+    with open(path, "wb") as f:
+        f.write(bytes.fromhex(c.line.split(" ")[1]))
+    sp = os.path.join(d, "s.p2")
+    with open(sp, "w") as f:
+        f.write(HDR_SCRIPT % path)
+    try:
+        p = subprocess.run([exe, sp], stdin=subprocess.DEVNULL, stdout=subprocess.PIPE, stderr=subprocess.PIPE, timeout=30)
+    except subprocess.TimeoutExpired:
+        return "HANG"
+    err = p.stderr.decode("utf-8", "replace")
+    if "panicked" in err:
+        return "PANIC " + err[:160].encode("utf-8").hex()
+    out = p.stdout.decode("utf-8", "replace").strip().splitlines()
+    if "Runtime error" in err:
+        return "rterr"
+    return out[0] if out else "noresult"
+
+
+def run_impl(ctx, cases):
+    import concurrent.futures as cf
+    import vlib
+    outs = [None] * len(cases)
+    hidx = [k for k, c in enumerate(cases) if not c.line.startswith("pcaphdr ")]
+    hout = vlib.run_parallel(ctx.harness, [cases[k].line for k in hidx], timeout=HARNESS_TIMEOUT, label="harness") if ctx.harness else ["NOHARNESS"] * len(hidx)
+    for k, o in zip(hidx, hout):
+        outs[k] = o
+    gidx = [k for k, c in enumerate(cases) if c.line.startswith("pcaphdr ")]
+    exe = ctx.p2sh.get("dev")
+    if not exe:
+        for k in gidx:
+            outs[k] = "NOHARNESS"
+    else:
+        scratch = ctx.mkscratch()
+        with cf.ThreadPoolExecutor(max_workers=16) as ex:
+            for k, o in zip(gidx, ex.map(lambda k: run_hdr(exe, scratch, k, cases[k]), gidx)):
+                outs[k] = o
+    return outs
 
 
 def sweep_values(ctx, width):
@@ -118,4 +180,16 @@ def cases(ctx):
             frame = frame[: rng.randint(0, len(frame))]
         steps = [s for s in P.random_read_script(rng, shapes[name]) if s != "W"]
         out.append(Case(P.pkt_line(frame, steps), ("random-reads", name)))
+    # ---- the pcap object (global header): every field at its boundaries, both magics, a negative thiszone, garbage magic
+    import struct
+    b16 = [0, 1, 2, 4, 255, 256, 32767, 32768, 65535]
+    b32 = [0, 1, 65535, 65536, 262144, 2147483647, 2147483648, 4294967295]
+    tz = [0, 1, -1, -18000, 19800, 2147483647, -2147483648]
+    for _ in range(ctx.scale(300, 6000)):
+        magic = rng.choice([0xA1B2C3D4, 0xA1B2C3D4, 0xA1B23C4D, 0xD4C3B2A1, rng.getrandbits(32)])
+        hdr = struct.pack("<IHHiIII", magic, rng.choice(b16 + [rng.getrandbits(16)]), rng.choice(b16 + [rng.getrandbits(16)]), rng.choice(tz + [rng.randint(-2 ** 31, 2 ** 31 - 1)]),
+                          rng.choice(b32 + [rng.getrandbits(32)]), rng.choice(b32 + [rng.getrandbits(32)]), rng.choice([0, 1, 101, 113, 4294967295, rng.getrandbits(32)]))
+        tail = b"" if rng.random() < 0.5 else struct.pack("<IIII", 1, 2, 4, 4) + b"abcd"
+        out.append(Case("pcaphdr " + (hdr + tail).hex(), ("pcap-object",)))
+    out.append(Case("pcaphdr " + struct.pack("<IHH", 0xA1B2C3D4, 2, 4).hex(), ("pcap-object",)))
     return P.with_witnesses(ctx, out)
